@@ -134,6 +134,9 @@ func zvalue(tok string) interface{} {
 
 func zvalues(s string) []interface{} {
 	t := ztoks(s)
+	if t == nil {
+		return nil // `Return()` / `When()` hand goom a nil slice
+	}
 	r := make([]interface{}, len(t))
 	for i, x := range t {
 		r[i] = zvalue(x)
